@@ -79,10 +79,14 @@ theorem fullSyncApply_received (store : Table) (snap : List (Nat × Nat)) (hn : 
 
 /-! ## messages -/
 
+theorem touches_iff (m : Msg) (k : Nat) : m.touches k = true ↔ m.kind ≠ .heartbeat ∧ m.key = k := by
+  simp [Msg.touches]
+
 theorem lookup_applyMsg (t : Table) (m : Msg) (k : Nat) :
-    lookup (applyMsg t m) k = if k = m.key then m.eff else lookup t k := by
-  unfold applyMsg Msg.eff
-  cases m.kind <;> simp [lookup_insert, lookup_erase]
+    lookup (applyMsg t m) k = if m.touches k then m.eff else lookup t k := by
+  unfold applyMsg Msg.eff Msg.touches
+  cases hk : m.kind <;> simp [lookup_insert, lookup_erase] <;>
+    (by_cases e : m.key = k <;> simp [e, Ne.symm] <;> (try (intro h; exact absurd h.symm e)))
 
 theorem nodup_applyMsg {t : Table} (h : NodupKeys t) (m : Msg) : NodupKeys (applyMsg t m) := by
   unfold applyMsg
@@ -90,6 +94,7 @@ theorem nodup_applyMsg {t : Table} (h : NodupKeys t) (m : Msg) : NodupKeys (appl
   · exact nodupKeys_insert h _ _
   · exact nodupKeys_insert h _ _
   · exact nodupKeys_erase h _
+  · exact h
 
 /-- the effect of the last message of `l` that touches session `k` -/
 def lastEff : List Msg → Nat → Option (Option Nat)
@@ -97,15 +102,15 @@ def lastEff : List Msg → Nat → Option (Option Nat)
   | m :: rest, k =>
     match lastEff rest k with
     | some e => some e
-    | none => if m.key = k then some m.eff else none
+    | none => if m.touches k then some m.eff else none
 
 theorem lastEff_append_one (l : List Msg) (m : Msg) (k : Nat) :
-    lastEff (l ++ [m]) k = if m.key = k then some m.eff else lastEff l k := by
+    lastEff (l ++ [m]) k = if m.touches k then some m.eff else lastEff l k := by
   induction l with
   | nil => simp [lastEff]
   | cons a rest ih =>
     simp only [List.cons_append, lastEff, ih]
-    by_cases e : m.key = k
+    by_cases e : m.touches k
     · simp [e]
     · simp [e]
 
@@ -119,7 +124,7 @@ theorem lastEff_suffix (pre post : List Msg) {k : Nat} {e : Option Nat}
   | nil => simpa using h
   | cons a rest ih => exact lastEff_tail ih
 
-theorem lastEff_none {l : List Msg} {k : Nat} : lastEff l k = none ↔ ∀ m ∈ l, m.key ≠ k := by
+theorem lastEff_none {l : List Msg} {k : Nat} : lastEff l k = none ↔ ∀ m ∈ l, m.touches k = false := by
   induction l with
   | nil => simp [lastEff]
   | cons a rest ih =>
@@ -132,30 +137,49 @@ theorem lastEff_none {l : List Msg} {k : Nat} : lastEff l k = none ↔ ∀ m ∈
       simp [h] at this
     | none =>
       have hall := ih.mp h
-      by_cases e : a.key = k
+      by_cases e : a.touches k
       · simp [e]
-      · simp only [e, if_false, true_iff]
-        exact ⟨e, hall⟩
+      · simp only [e, Bool.false_eq_true, if_false, true_iff]
+        exact ⟨by simpa using e, hall⟩
+
+/-- taking out a message that says nothing about `k` does not change the last word on `k` -/
+theorem lastEff_remove (pre post : List Msg) (m : Msg) (k : Nat) (h : m.touches k = false) :
+    lastEff (pre ++ m :: post) k = lastEff (pre ++ post) k := by
+  induction pre with
+  | nil =>
+    simp only [List.nil_append, lastEff, h, Bool.false_eq_true, if_false]
+    cases lastEff post k <;> rfl
+  | cons a rest ih => simp only [List.cons_append, lastEff, ih]
+
+theorem any_touches_iff {l : List Msg} {k : Nat} : l.any (·.touches k) = false ↔ lastEff l k = none := by
+  rw [lastEff_none]
+  simp [List.any_eq_false]
+
+/-- the messages that carry a change -/
+def changes (l : List Msg) : List Msg := l.filter fun m => m.kind != .heartbeat
+
+theorem changes_append (a b : List Msg) : changes (a ++ b) = changes a ++ changes b := by
+  simp [changes]
 
 /-! ## the run invariant -/
 
 structure Inv (s : State) : Prop where
   nodup  : NodupKeys s.table
   snapLe : s.snapSeq ≤ s.seq
-  bound  : ∀ m ∈ s.bcast ++ s.pending, m.seq ≤ s.seq
-  incr   : List.Pairwise (· < ·) ((s.bcast ++ s.pending).map (·.seq))
+  pend   : ∀ m ∈ s.pending, m.kind ≠ .heartbeat
+  bound  : ∀ m ∈ changes s.bcast ++ s.pending, m.seq ≤ s.seq
+  incr   : List.Pairwise (· < ·) ((changes s.bcast ++ s.pending).map (·.seq))
   chan   : ∀ ch, s.client = some ch → s.applied ++ ch = s.sent
   sub    : s.sent.Sublist s.bcast
-  nodrop : s.dropEpoch = false → s.sent = s.bcast
+  nodrop : s.dropped = [] → s.sent = s.bcast
   detached : s.client = none → s.bcast = []
-  inbound : ∀ m ∈ s.inflight, m.seq ≤ s.seq
-  J      : s.lostFull = false → ∀ k e, lastEff s.inflight k = some e → e = lookup s.table k
-  S      : s.fullSynced = true → s.gapLost = false → s.lostFull = false →
-             ∀ k, lookup s.store k = lookup s.table k ∨
-               ∃ m ∈ s.inflight, m.key = k ∧ (s.snapSeq < m.seq ∨ s.client.isSome = true)
+  J      : ∀ k, k ∉ s.fullKeys → ∀ e, lastEff s.inflight k = some e → e = lookup s.table k
+  S      : s.fullSynced = true → ∀ k, k ∉ s.gapKeys → k ∉ s.fullKeys →
+             lookup s.store k = lookup s.table k ∨
+               ∃ m ∈ s.inflight, m.touches k = true ∧ (s.snapSeq < m.seq ∨ s.client.isSome = true)
 
 theorem inv_init (c : Cfg) : Inv (init c) := by
-  constructor <;> simp [init, State.inflight, NodupKeys, keys, lastEff]
+  constructor <;> simp [init, State.inflight, NodupKeys, keys, lastEff, changes]
 
 theorem pairwise_append_one {l : List Nat} {x : Nat} (h : List.Pairwise (· < ·) l) (hx : ∀ y ∈ l, y < x) :
     List.Pairwise (· < ·) (l ++ [x]) := by
@@ -166,16 +190,29 @@ theorem pairwise_append_one {l : List Nat} {x : Nat} (h : List.Pairwise (· < ·
   subst hb
   exact hx a ha
 
-theorem inv_push {s : State} (h : Inv s) (kind : Kind) (k v : Nat) : Inv (push s kind k v).1 := by
+theorem changes_one {m : Msg} (h : m.kind ≠ .heartbeat) : changes [m] = [m] := by
+  simp [changes, h]
+
+theorem inv_push {s : State} (h : Inv s) (kind : Kind) (hkind : kind ≠ .heartbeat) (k v : Nat) :
+    Inv (push s kind k v).1 := by
+  have htouch : ∀ k', (⟨s.seq + 1, kind, k, v⟩ : Msg).touches k' = decide (k = k') := by
+    intro k'
+    have : (kind != Kind.heartbeat) = true := by simpa using hkind
+    simp only [Msg.touches, this, Bool.true_and]
+    by_cases e : k = k' <;> simp [e]
   unfold push
   split
   · -- accepted
-    have hinf : ({ s with table := applyMsg s.table ⟨s.seq + 1, kind, k, v⟩, seq := s.seq + 1, pending := s.pending ++ [⟨s.seq + 1, kind, k, v⟩] } : State).inflight
-          = s.inflight ++ [⟨s.seq + 1, kind, k, v⟩] := by
+    have hinf : ({ s with table := applyMsg s.table ⟨s.seq + 1, kind, k, v⟩, seq := s.seq + 1, pending := s.pending ++ [⟨s.seq + 1, kind, k, v⟩] } : State).inflight = s.inflight ++ [⟨s.seq + 1, kind, k, v⟩] := by
       simp [State.inflight]
     constructor
     · exact nodup_applyMsg h.nodup _
     · simp only; have := h.snapLe; omega
+    · intro m hm
+      simp only [List.mem_append, List.mem_singleton] at hm
+      rcases hm with hm | hm
+      · exact h.pend m hm
+      · subst hm; exact hkind
     · intro m hm
       simp only [← List.append_assoc, List.mem_append, List.mem_singleton] at hm
       rcases hm with hm | hm
@@ -193,89 +230,97 @@ theorem inv_push {s : State} (h : Inv s) (kind : Kind) (k v : Nat) : Inv (push s
     · exact h.sub
     · exact h.nodrop
     · exact h.detached
-    · rw [hinf]
-      intro m hm
-      simp only [List.mem_append, List.mem_singleton] at hm
-      rcases hm with hm | hm
-      · have := h.inbound m hm; simp only; omega
-      · subst hm; simp
-    · intro hl k' e he
-      rw [hinf, lastEff_append_one] at he
-      simp only at he hl ⊢
-      rw [lookup_applyMsg]
+    · intro k' hk' e he
+      rw [hinf, lastEff_append_one, htouch] at he
+      simp only at he hk' ⊢
+      rw [lookup_applyMsg, htouch]
       by_cases ek : k = k'
       · subst ek; simp at he ⊢; exact he.symm
-      · have ek' : ¬ k' = k := fun x => ek x.symm
-        simp only [ek, if_false] at he
-        simp only [ek', if_false]
-        exact h.J hl k' e he
-    · intro hf hg hl k'
+      · simp only [ek, decide_false, Bool.false_eq_true, if_false] at he ⊢
+        exact h.J k' hk' e he
+    · intro hf k' hg hl
       rw [hinf]
       simp only at hf hg hl ⊢
-      by_cases ek : k' = k
+      by_cases ek : k = k'
       · right
-        refine ⟨⟨s.seq + 1, kind, k, v⟩, by simp, ek.symm, Or.inl ?_⟩
+        refine ⟨⟨s.seq + 1, kind, k, v⟩, by simp, by rw [htouch]; simp [ek], Or.inl ?_⟩
         have := h.snapLe; simp only; omega
-      · rcases h.S hf hg hl k' with hs | ⟨m, hm, hk, hc⟩
-        · left; rw [lookup_applyMsg]; simp [ek]; exact hs
+      · rcases h.S hf k' hg hl with hs | ⟨m, hm, hk, hc⟩
+        · left; rw [lookup_applyMsg, htouch]; simp [ek]; exact hs
         · right; exact ⟨m, List.mem_append_left _ hm, hk, hc⟩
-  · -- refused: the change is lost, lostFull is raised
+  · -- refused: the change is lost, its session is recorded
     constructor
     · exact nodup_applyMsg h.nodup _
     · simp only; have := h.snapLe; omega
+    · exact h.pend
     · intro m hm; have := h.bound m hm; simp only; omega
     · exact h.incr
     · exact h.chan
     · exact h.sub
     · exact h.nodrop
     · exact h.detached
-    · intro m hm; have := h.inbound m hm; simp only; omega
-    · intro hl; simp at hl
-    · intro _ _ hl; simp at hl
+    · intro k' hk' e he
+      simp only [List.mem_append, List.mem_singleton, not_or] at hk'
+      have hne : ¬ k = k' := fun x => hk'.2 x.symm
+      simp only [State.inflight] at he ⊢
+      rw [lookup_applyMsg, htouch]
+      simp only [hne, decide_false, Bool.false_eq_true, if_false]
+      exact h.J k' hk'.1 e he
+    · intro hf k' hg hl
+      simp only [List.mem_append, List.mem_singleton, not_or] at hl
+      have hne : ¬ k = k' := fun x => hl.2 x.symm
+      rcases h.S hf k' hg hl.1 with hs | hw
+      · left; simp only; rw [lookup_applyMsg, htouch]; simp [hne]; exact hs
+      · right; exact hw
 
 theorem inv_broadcast {s : State} (h : Inv s) : Inv (broadcast s).1 := by
   unfold broadcast
   split
   · exact h
   · rename_i m rest hp
+    have hmk : m.kind ≠ .heartbeat := h.pend m (by rw [hp]; simp)
+    have hpend' : ∀ x ∈ rest, x.kind ≠ .heartbeat := fun x hx => h.pend x (by rw [hp]; exact List.mem_cons_of_mem _ hx)
     split
     · -- nobody attached: the head of the queue (= the head of everything in flight) is lost
       rename_i hc
       have hb : s.bcast = [] := h.detached hc
       have hinf : s.inflight = m :: rest := by simp [State.inflight, hc, hp]
-      have hinf' : ({ s with pending := rest, gapLost := s.gapLost || decide (s.snapSeq < m.seq) } : State).inflight
-          = rest := by simp [State.inflight, hc]
+      have hinf' : ∀ g, ({ s with pending := rest, gapKeys := g } : State).inflight = rest := by
+        intro g; simp [State.inflight, hc]
       constructor
       · exact h.nodup
       · exact h.snapLe
+      · exact hpend'
       · intro x hx
         apply h.bound x
-        simp only [hb, hp, List.nil_append] at hx ⊢
+        simp only [hb, hp, changes, List.filter_nil, List.nil_append] at hx ⊢
         exact List.mem_cons_of_mem _ hx
       · have := h.incr
-        simp only [hb, hp, List.nil_append, List.map_cons, List.pairwise_cons] at this ⊢
+        simp only [hb, hp, changes, List.filter_nil, List.nil_append, List.map_cons, List.pairwise_cons] at this ⊢
         exact this.2
       · exact h.chan
       · exact h.sub
       · exact h.nodrop
       · exact h.detached
-      · rw [hinf']; intro x hx; exact h.inbound x (by rw [hinf]; exact List.mem_cons_of_mem _ hx)
-      · intro hl k e he
+      · intro k hk e he
         rw [hinf'] at he
-        exact h.J hl k e (by rw [hinf]; exact lastEff_tail he)
-      · intro hf hg hl k
+        exact h.J k hk e (by rw [hinf]; exact lastEff_tail he)
+      · intro hf k hg hl
         simp only at hf hg hl ⊢
-        have hg' : s.gapLost = false ∧ ¬ s.snapSeq < m.seq := by
-          simp only [Bool.or_eq_false_iff, decide_eq_false_iff_not] at hg; exact hg
         rw [hinf']
-        rcases h.S hf hg'.1 hl k with hs | ⟨x, hx, hk, hcx⟩
+        have hg' : k ∉ s.gapKeys ∧ (s.snapSeq < m.seq → m.key ≠ k) := by
+          split at hg
+          · simp only [List.mem_append, List.mem_singleton, not_or] at hg
+            exact ⟨hg.1, fun _ x => hg.2 x.symm⟩
+          · rename_i hlt; exact ⟨hg, fun x => absurd x hlt⟩
+        rcases h.S hf k hg'.1 hl with hs | ⟨x, hx, hk, hcx⟩
         · left; exact hs
         · right
           rw [hinf] at hx
           rcases List.mem_cons.mp hx with hx | hx
           · subst hx
             rcases hcx with hcx | hcx
-            · exact absurd hcx hg'.2
+            · exact absurd ((touches_iff _ _).mp hk).2 (hg'.2 hcx)
             · simp [hc] at hcx
           · exact ⟨x, hx, hk, hcx⟩
     · rename_i ch hc
@@ -283,15 +328,18 @@ theorem inv_broadcast {s : State} (h : Inv s) : Inv (broadcast s).1 := by
       · -- room in the client channel
         have hinf : ({ s with pending := rest, client := some (ch ++ [m]), bcast := s.bcast ++ [m], sent := s.sent ++ [m] } : State).inflight = s.inflight := by
           simp [State.inflight, hc, hp]
+        have hch : changes (s.bcast ++ [m]) = changes s.bcast ++ [m] := by
+          rw [changes_append, changes_one hmk]
         constructor
         · exact h.nodup
         · exact h.snapLe
+        · exact hpend'
         · intro x hx
           apply h.bound x
-          simp only [hp, List.append_assoc, List.singleton_append] at hx ⊢
+          simp only [hch, hp, List.append_assoc, List.singleton_append] at hx ⊢
           exact hx
         · have := h.incr
-          simp only [hp, List.append_assoc, List.singleton_append] at this ⊢
+          simp only [hch, hp, List.append_assoc, List.singleton_append] at this ⊢
           exact this
         · intro ch' hch'
           simp only [Option.some.injEq] at hch'
@@ -300,92 +348,159 @@ theorem inv_broadcast {s : State} (h : Inv s) : Inv (broadcast s).1 := by
         · exact List.Sublist.append h.sub (List.Sublist.refl _)
         · intro hd; simp only at hd ⊢; rw [h.nodrop hd]
         · intro hx; simp at hx
-        · rw [hinf]; exact h.inbound
-        · intro hl k e he; rw [hinf] at he; exact h.J hl k e he
-        · intro hf hg hl k
+        · intro k hk e he; rw [hinf] at he; exact h.J k hk e he
+        · intro hf k hg hl
           rw [hinf]
-          rcases h.S hf hg hl k with hs | ⟨x, hx, hk, hcx⟩
+          rcases h.S hf k hg hl with hs | ⟨x, hx, hk, hcx⟩
           · left; exact hs
           · right; exact ⟨x, hx, hk, Or.inr (by simp)⟩
-      · -- client channel full: the change is dropped
+      · -- client channel full: the change is dropped, its session recorded
+        have hch : changes (s.bcast ++ [m]) = changes s.bcast ++ [m] := by
+          rw [changes_append, changes_one hmk]
+        have hinf : s.inflight = ch ++ m :: rest := by simp [State.inflight, hc, hp]
+        have hinf' : ({ s with pending := rest, bcast := s.bcast ++ [m], fullKeys := s.fullKeys ++ [m.key], dropped := s.dropped ++ [m] } : State).inflight = ch ++ rest := by
+          simp [State.inflight, hc]
         constructor
         · exact h.nodup
         · exact h.snapLe
+        · exact hpend'
         · intro x hx
           apply h.bound x
-          simp only [hp, List.append_assoc, List.singleton_append] at hx ⊢
+          simp only [hch, hp, List.append_assoc, List.singleton_append] at hx ⊢
           exact hx
         · have := h.incr
-          simp only [hp, List.append_assoc, List.singleton_append] at this ⊢
+          simp only [hch, hp, List.append_assoc, List.singleton_append] at this ⊢
           exact this
         · exact h.chan
         · exact List.Sublist.trans h.sub (List.sublist_append_left _ _)
         · intro hd; simp at hd
         · intro hx; simp only at hx; rw [hc] at hx; simp at hx
-        · intro x hx
-          apply h.inbound x
-          simp only [State.inflight, hc, hp, Option.getD_some, List.mem_append, List.mem_cons] at hx ⊢
-          rcases hx with hx | hx
-          · exact Or.inl hx
-          · exact Or.inr (Or.inr hx)
-        · intro hl; simp at hl
-        · intro _ _ hl; simp at hl
+        · intro k hk e he
+          simp only [List.mem_append, List.mem_singleton, not_or] at hk
+          rw [hinf'] at he
+          have hnt : m.touches k = false := by
+            cases ht : m.touches k with
+            | false => rfl
+            | true => exact absurd ((touches_iff _ _).mp ht).2.symm hk.2
+          exact h.J k hk.1 e (by rw [hinf, lastEff_remove _ _ _ _ hnt]; exact he)
+        · intro hf k hg hl
+          simp only [List.mem_append, List.mem_singleton, not_or] at hl
+          rw [hinf']
+          rcases h.S hf k hg hl.1 with hs | ⟨x, hx, hk, hcx⟩
+          · left; exact hs
+          · right
+            rw [hinf] at hx
+            have hxm : x ≠ m := by
+              intro e; subst e
+              exact hl.2 ((touches_iff _ _).mp hk).2.symm
+            refine ⟨x, ?_, hk, Or.inr (by simp [hc])⟩
+            simp only [List.mem_append, List.mem_cons] at hx ⊢
+            rcases hx with hx | hx | hx
+            · exact Or.inl hx
+            · exact absurd hx hxm
+            · exact Or.inr hx
 
 theorem inv_fullSync {s : State} (h : Inv s) : Inv (fullSync s).1 := by
   unfold fullSync
-  have hinf : ∀ (st rc : Table) (a : Nat) (b c d : Bool),
-      ({ s with store := st, received := rc, snapSeq := a, fullSynced := b, gapLost := c, lostFull := d } : State).inflight
+  have hinf : ∀ (st rc : Table) (a : Nat) (b : Bool) (g f : List Nat),
+      ({ s with store := st, received := rc, snapSeq := a, fullSynced := b, gapKeys := g, fullKeys := f } : State).inflight
         = s.inflight := by intros; rfl
   constructor
   · exact h.nodup
   · simp
+  · exact h.pend
   · exact h.bound
   · exact h.incr
   · exact h.chan
   · exact h.sub
   · exact h.nodrop
   · exact h.detached
-  · exact h.inbound
-  · intro hl k e he
-    simp only at hl
+  · intro k hk e he
+    simp only at hk
     rw [hinf] at he
-    by_cases hidle : ((s.client.getD []).isEmpty && s.pending.isEmpty) = true
-    · -- nothing in flight: vacuous
-      have : s.inflight = [] := by
-        simp only [Bool.and_eq_true, List.isEmpty_iff] at hidle
-        simp [State.inflight, hidle.1, hidle.2]
-      rw [this] at he; simp [lastEff] at he
-    · have : s.lostFull = false := by
-        simp only [Bool.not_eq_true] at hidle
-        simp only [hidle, Bool.not_false, Bool.and_true] at hl
-        exact hl
-      exact h.J this k e he
-  · intro _ _ _ k
+    by_cases hold : k ∈ s.fullKeys
+    · -- dropped out of fullKeys: nothing about k is in flight
+      have : s.inflight.any (·.touches k) = false := by
+        cases ha : s.inflight.any (·.touches k) with
+        | false => rfl
+        | true => exact absurd (List.mem_filter.mpr ⟨hold, ha⟩) hk
+      rw [any_touches_iff.mp this] at he
+      simp at he
+    · exact h.J k hold e he
+  · intro _ k _ _
     left
     exact fullSyncApply_store s.store s.table h.nodup k
+
+theorem inv_streamFull {s : State} (h : Inv s) : Inv (streamFull s).1 := by
+  unfold streamFull
+  split
+  · exact h
+  · exact inv_fullSync h
+
+theorem inv_heartbeat {s : State} (h : Inv s) : Inv (heartbeat s).1 := by
+  unfold heartbeat
+  split
+  · exact h
+  · rename_i ch hc
+    simp only
+    split
+    · have hbk : ∀ k, (⟨s.seq, Kind.heartbeat, 0, 0⟩ : Msg).touches k = false := by intro k; simp [Msg.touches]
+      have hch : changes (s.bcast ++ [⟨s.seq, .heartbeat, 0, 0⟩]) = changes s.bcast := by
+        simp [changes]
+      have hinf : ({ s with client := some (ch ++ [⟨s.seq, .heartbeat, 0, 0⟩]), bcast := s.bcast ++ [⟨s.seq, .heartbeat, 0, 0⟩], sent := s.sent ++ [⟨s.seq, .heartbeat, 0, 0⟩] } : State).inflight = ch ++ ⟨s.seq, .heartbeat, 0, 0⟩ :: s.pending := by
+        simp [State.inflight]
+      have hinf0 : s.inflight = ch ++ s.pending := by simp [State.inflight, hc]
+      constructor
+      · exact h.nodup
+      · exact h.snapLe
+      · exact h.pend
+      · simp only [hch]; exact h.bound
+      · simp only [hch]; exact h.incr
+      · intro ch' hch'
+        simp only [Option.some.injEq] at hch'
+        subst hch'
+        rw [← List.append_assoc, h.chan ch hc]
+      · exact List.Sublist.append h.sub (List.Sublist.refl _)
+      · intro hd; simp only at hd ⊢; rw [h.nodrop hd]
+      · intro hx; simp at hx
+      · intro k hk e he
+        rw [hinf, lastEff_remove _ _ _ _ (hbk k)] at he
+        exact h.J k hk e (by rw [hinf0]; exact he)
+      · intro hf k hg hl
+        rw [hinf]
+        rcases h.S hf k hg hl with hs | ⟨x, hx, hk, _⟩
+        · left; exact hs
+        · right
+          rw [hinf0] at hx
+          refine ⟨x, ?_, hk, Or.inr (by simp)⟩
+          simp only [List.mem_append, List.mem_cons] at hx ⊢
+          rcases hx with hx | hx
+          · exact Or.inl hx
+          · exact Or.inr (Or.inr hx)
+    · exact h
 
 theorem inv_attach {s : State} (h : Inv s) : Inv (attach s).1 := by
   unfold attach
   split
   · exact h
   · rename_i hc
-    have hinf : ({ s with client := some [], bcast := [], sent := [], applied := [], dropEpoch := false } : State).inflight
-        = s.inflight := by simp [State.inflight, hc]
+    have hinf : ({ s with client := some [], bcast := [], sent := [], applied := [], dropped := [] } : State).inflight = s.inflight := by
+      simp [State.inflight, hc]
     have hb := h.detached hc
     constructor
     · exact h.nodup
     · exact h.snapLe
+    · exact h.pend
     · intro x hx; apply h.bound x; simp only [hb] at hx ⊢; exact hx
     · have := h.incr; simp only [hb] at this ⊢; exact this
     · intro ch hch; simp only [Option.some.injEq] at hch; subst hch; simp
     · simp
     · intro _; rfl
     · intro hx; simp at hx
-    · rw [hinf]; exact h.inbound
-    · intro hl k e he; rw [hinf] at he; exact h.J hl k e he
-    · intro hf hg hl k
+    · intro k hk e he; rw [hinf] at he; exact h.J k hk e he
+    · intro hf k hg hl
       rw [hinf]
-      rcases h.S hf hg hl k with hs | ⟨x, hx, hk, _⟩
+      rcases h.S hf k hg hl with hs | ⟨x, hx, hk, _⟩
       · left; exact hs
       · right; exact ⟨x, hx, hk, Or.inr (by simp)⟩
 
@@ -396,10 +511,12 @@ theorem inv_deliver {s : State} (h : Inv s) : Inv (deliver s).1 := by
   · exact h
   · rename_i m rest hc
     have hinf : s.inflight = m :: (rest ++ s.pending) := by simp [State.inflight, hc]
-    have hinf' : ({ s with client := some rest, store := applyMsg s.store m, received := applyMsg s.received m, applied := s.applied ++ [m] } : State).inflight = rest ++ s.pending := by simp [State.inflight]
+    have hinf' : ({ s with client := some rest, store := applyMsg s.store m, received := applyMsg s.received m, applied := s.applied ++ [m] } : State).inflight = rest ++ s.pending := by
+      simp [State.inflight]
     constructor
     · exact h.nodup
     · exact h.snapLe
+    · exact h.pend
     · exact h.bound
     · exact h.incr
     · intro ch hch
@@ -411,27 +528,28 @@ theorem inv_deliver {s : State} (h : Inv s) : Inv (deliver s).1 := by
     · exact h.sub
     · exact h.nodrop
     · intro hx; simp at hx
-    · rw [hinf']; intro x hx; exact h.inbound x (by rw [hinf]; exact List.mem_cons_of_mem _ hx)
-    · intro hl k e he
+    · intro k hk e he
       rw [hinf'] at he
-      exact h.J hl k e (by rw [hinf]; exact lastEff_tail he)
-    · intro hf hg hl k
+      exact h.J k hk e (by rw [hinf]; exact lastEff_tail he)
+    · intro hf k hg hl
       simp only at hf hg hl ⊢
       rw [hinf']
-      by_cases ek : k = m.key
+      by_cases ek : m.touches k = true
       · -- the delivered message touches k
         cases hle : lastEff (rest ++ s.pending) k with
         | some e =>
           -- a later message for k is still in flight
           right
-          have : ¬ ∀ x ∈ rest ++ s.pending, x.key ≠ k := by
-            intro hall; have := lastEff_none.mpr hall; simp [hle] at this
-          have : ∃ x ∈ rest ++ s.pending, x.key = k := by
+          have : ∃ x ∈ rest ++ s.pending, x.touches k = true := by
             apply Classical.byContradiction
             intro hne
-            apply this
-            intro x hx hk
-            exact hne ⟨x, hx, hk⟩
+            have : ∀ x ∈ rest ++ s.pending, x.touches k = false := by
+              intro x hx
+              cases ht : x.touches k with
+              | false => rfl
+              | true => exact absurd ⟨x, hx, ht⟩ hne
+            have := lastEff_none.mpr this
+            simp [hle] at this
           obtain ⟨x, hx, hk⟩ := this
           exact ⟨x, hx, hk, Or.inr (by simp)⟩
         | none =>
@@ -439,16 +557,15 @@ theorem inv_deliver {s : State} (h : Inv s) : Inv (deliver s).1 := by
           left
           have hlast : lastEff s.inflight k = some m.eff := by
             rw [hinf]; simp only [lastEff, hle]; simp [ek]
-          have := h.J hl k _ hlast
+          have := h.J k hl _ hlast
           rw [lookup_applyMsg]; simp [ek]
-          rw [ek] at this
           exact this
-      · rcases h.S hf hg hl k with hs | ⟨x, hx, hk, _⟩
+      · rcases h.S hf k hg hl with hs | ⟨x, hx, hk, _⟩
         · left; rw [lookup_applyMsg]; simp [ek]; exact hs
         · right
           rw [hinf] at hx
           rcases List.mem_cons.mp hx with hx | hx
-          · subst hx; exact absurd hk.symm ek
+          · subst hx; exact absurd hk ek
           · exact ⟨x, hx, hk, Or.inr (by simp)⟩
 
 theorem inv_disconnect {s : State} (h : Inv s) : Inv (disconnect s).1 := by
@@ -457,37 +574,40 @@ theorem inv_disconnect {s : State} (h : Inv s) : Inv (disconnect s).1 := by
   · exact h
   · rename_i ch hc
     have hinf : s.inflight = ch ++ s.pending := by simp [State.inflight, hc]
-    have hinf' : ({ s with client := none, fullSynced := false, bcast := [], sent := [], applied := [], dropEpoch := false } : State).inflight = s.pending := by simp [State.inflight]
+    have hinf' : ({ s with client := none, fullSynced := false, bcast := [], sent := [], applied := [], dropped := [] } : State).inflight = s.pending := by
+      simp [State.inflight]
     constructor
     · exact h.nodup
     · exact h.snapLe
+    · exact h.pend
     · intro x hx
       apply h.bound x
-      simp only [List.nil_append] at hx
+      simp only [changes, List.filter_nil, List.nil_append] at hx
       exact List.mem_append_right _ hx
     · have := h.incr
-      simp only [List.map_append, List.nil_append] at this ⊢
+      simp only [List.map_append, changes, List.filter_nil, List.nil_append] at this ⊢
       exact (List.pairwise_append.mp this).2.1
     · intro ch' hch'; simp at hch'
     · simp
     · intro _; rfl
     · intro _; rfl
-    · rw [hinf']; intro x hx; exact h.inbound x (by rw [hinf]; exact List.mem_append_right _ hx)
-    · intro hl k e he
+    · intro k hk e he
       rw [hinf'] at he
-      exact h.J hl k e (by rw [hinf]; exact lastEff_suffix _ _ he)
+      exact h.J k hk e (by rw [hinf]; exact lastEff_suffix _ _ he)
     · intro hf; simp at hf
 
 theorem inv_step {s : State} (h : Inv s) (op : Op) : Inv (step s op).1 := by
   cases op with
-  | add k v => exact inv_push h _ _ _
-  | update k v => exact inv_push h _ _ _
-  | delete k => exact inv_push h _ _ _
+  | add k v => exact inv_push h _ (by simp) _ _
+  | update k v => exact inv_push h _ (by simp) _ _
+  | delete k => exact inv_push h _ (by simp) _ _
   | broadcast => exact inv_broadcast h
   | fullSync => exact inv_fullSync h
   | attach => exact inv_attach h
   | deliver => exact inv_deliver h
   | disconnect => exact inv_disconnect h
+  | streamFull => exact inv_streamFull h
+  | heartbeat => exact inv_heartbeat h
 
 theorem inv_run {s : State} (h : Inv s) (ops : List Op) : Inv (run s ops) := by
   induction ops generalizing s with
